@@ -16,11 +16,11 @@ pub fn entry() -> Entry {
         shard,
         replay,
         level: "exploration",
-        rule: "generated histories of batches whose column sets are arbitrary subsets of a name pool (case pairs a/A, non-ASCII, > 64 bytes, names sorting before/after all others, prefixes of each other), interleaved with force_flush (combine factor {0,1,4,999}) and restart over 1-3 tables; after every step SELECT * (sorted column names, every cell, NULL where a batch did not mention the column), the per-table column list (_meta_columns_<t>) and the table list (_meta_tables) are compared with the model, each name exactly once; non-trivial = a column first seen after a flush or restart and a batch lacking a known column; distinct = canonical history text",
+        rule: "generated histories of batches whose column sets are arbitrary subsets of a name pool (case pairs a/A, non-ASCII, > 64 bytes, names sorting before/after all others, prefixes of each other; in a quarter of the histories a pool of even-length hex strings in lower, upper and mixed case, which the string codec of the catalogue table packs), interleaved with force_flush (combine factor {0,1,4,999}) and restart over 1-3 tables; after every step SELECT * (sorted column names, every cell, NULL where a batch did not mention the column), the per-table column list (_meta_columns_<t>) and the table list (_meta_tables) are compared with the model, each name exactly once; after every restart and at the end every column is also read on its own (SELECT c, and split by c IS NULL / c IS NOT NULL) and LocustDB::search_column_names is compared with the model for four literals; non-trivial = a column first seen after a flush or restart and a batch lacking a known column; distinct = canonical history text",
         assumptions: &["column names containing a double quote are not generated (SQL quoting in this dialect cannot express them)", "each column name keeps one value type"],
         quick_budget_s: 900,
         thorough_budget_s: 7200,
-        required_classes: &["name:case_pair", "name:non_ascii", "name:long", "name:sorts_first", "name:sorts_last", "name:prefix", "op:flush", "op:restart", "late_column:after_flush", "late_column:after_restart", "batch:lacks_known_column", "pcf:0", "pcf:1", "pcf:4", "pcf:999"],
+        required_classes: &["name:case_pair", "name:non_ascii", "name:long", "name:sorts_first", "name:sorts_last", "name:prefix", "name:hex_upper", "name:hex_lower", "name:hex_mixed", "op:flush", "op:restart", "late_column:after_flush", "late_column:after_restart", "batch:lacks_known_column", "pcf:0", "pcf:1", "pcf:4", "pcf:999", "lane:single_column", "lane:single_column_partly_null", "lane:search_column_names"],
         exhaustive_claim: false,
     }
 }
@@ -48,6 +48,26 @@ pub fn name_pool() -> Vec<(String, ColType, &'static str)> {
     ]
 }
 
+/// Names that look like data the string codecs treat specially: the catalogue table `_meta_columns_<t>` is
+/// itself a one-string-column table, so a batch of new names that are all even-length hex strings is
+/// hex-packed (lower case, upper case) or must be left alone (mixed case) like any other string column.
+pub fn hex_name_pool() -> Vec<(String, ColType, &'static str)> {
+    vec![
+        ("DEADBEEF".into(), ColType::Int, "name:hex_upper"),
+        ("deadbeef".into(), ColType::Str, "name:hex_lower"),
+        ("DeadBeef".into(), ColType::Float, "name:hex_mixed"),
+        ("00c0ffee".into(), ColType::Int, "name:hex_lower"),
+        ("00C0FFEE".into(), ColType::Str, "name:hex_upper"),
+        ("0123456789".into(), ColType::Int, "name:hex_digits"),
+        ("cafe".into(), ColType::Float, "name:hex_lower"),
+        ("abcdefABCDEF".into(), ColType::Str, "name:hex_mixed"),
+    ]
+}
+
+fn hex_schema() -> Schema {
+    Schema { columns: hex_name_pool().into_iter().map(|(n, t, _)| (n, t)).collect(), mention_pct: 40, ..schema() }
+}
+
 fn schema() -> Schema {
     Schema {
         tables: vec!["t0".into(), "T1".into(), "tab le".into()],
@@ -66,7 +86,12 @@ fn opts() -> BoxedStrategy<DbOpts> {
 }
 
 fn case_strategy(max_ops: usize) -> BoxedStrategy<Case> {
-    (opts(), hist::ops(schema(), OpWeights { ingest: 6, flush: 3, evict: 1, restart: 2 }, 1..max_ops))
+    let w = || OpWeights { ingest: 6, flush: 3, evict: 1, restart: 2 };
+    let ops = prop_oneof![
+        3 => hist::ops(schema(), w(), 1..max_ops),
+        1 => hist::ops(hex_schema(), w(), 1..max_ops),
+    ];
+    (opts(), ops)
         .prop_map(|(opts, ops)| Case { history: History { opts, ops } })
         .boxed()
 }
@@ -75,7 +100,8 @@ pub fn check(case: &Case, env: &mut CaseEnv) -> Result<(), Failure> {
     let h = &case.history;
     env.class(&format!("pcf:{}", h.opts.partition_combine_factor));
     env.sample(|| json!({"history": h.describe()}));
-    let pool = name_pool();
+    let mut pool = name_pool();
+    pool.extend(hex_name_pool());
     let dir = db::temp_dir("c13");
     let mut run = Run::start(&h.opts, dir.path())?;
     let mut since_flush = true; // no flush/restart yet: first columns are not "late"
@@ -115,6 +141,9 @@ pub fn check(case: &Case, env: &mut CaseEnv) -> Result<(), Failure> {
         let stage = format!("after step {} ({}) of [{}]", i, op.kind(), h.describe());
         hist::check_content(run.db(), &run.model, &stage)?;
         hist::check_catalogue(run.db(), &run.model, &stage)?;
+        if matches!(op, Op::Restart) || i + 1 == h.ops.len() {
+            check_each_column(run.db(), &run.model, &stage, env)?;
+        }
         if let Some(p) = db::db_panics().first() {
             return Err(Failure::db_panic(p, &stage));
         }
@@ -123,6 +152,66 @@ pub fn check(case: &Case, env: &mut CaseEnv) -> Result<(), Failure> {
         env.nontrivial(&h.describe());
     }
     run.finish()
+}
+
+/// Per-column lane: every column read on its own (so a partition that lacks it contributes nothing but
+/// its length), split by presence with IS NULL / IS NOT NULL, and the catalogue accessor
+/// `search_column_names` (all names, and names containing a literal).
+fn check_each_column(dbh: &db::Db, model: &crate::model::DbModel, stage: &str, env: &mut CaseEnv) -> Result<(), Failure> {
+    use crate::model::Cell;
+    let run_q = |sql: &str| -> Result<db::QOut, Failure> {
+        match dbh.query(sql).map_err(|f| Failure::from_fault(&f, &format!("{}: `{}`", stage, sql)))? {
+            Ok(o) => Ok(o),
+            Err(e) => {
+                std::thread::sleep(std::time::Duration::from_millis(30));
+                if let Some(p) = db::db_panics().first() {
+                    return Err(Failure::db_panic(p, &format!("{}: `{}` failed: {}", stage, sql, e.short())));
+                }
+                Err(Failure::mismatch(format!("{}: `{}` failed: {}", stage, sql, e.short())).tag("query_error"))
+            }
+        }
+    };
+    for (tname, tm) in &model.tables {
+        let t = hist::quote(tname);
+        for (cname, cells) in &tm.cols {
+            let c = hist::quote(cname);
+            let one = vec![cname.clone()];
+            let sql = format!("SELECT {} FROM {}", c, t);
+            hist::compare_table(tm, &run_q(&sql)?, &one, stage, &sql)?;
+            env.class("lane:single_column");
+            let nulls = cells.iter().filter(|x| matches!(x, Cell::Null)).count();
+            if nulls > 0 && nulls < cells.len() {
+                env.class("lane:single_column_partly_null");
+            }
+            for (pred, keep_null) in [("IS NULL", true), ("IS NOT NULL", false)] {
+                let sql = format!("SELECT {} FROM {} WHERE {} {}", c, t, c, pred);
+                let want: Vec<Cell> = cells.iter().filter(|x| matches!(x, Cell::Null) == keep_null).cloned().collect();
+                let sub = crate::model::TableModel { rows: want.len(), cols: [(cname.clone(), want)].into_iter().collect() };
+                hist::compare_table(&sub, &run_q(&sql)?, &one, stage, &sql)?;
+            }
+        }
+        let all: Vec<String> = tm.cols.keys().cloned().collect();
+        for pat in ["", "a", "ab", "x"] {
+            let mut want: Vec<String> = all.iter().filter(|n| n.contains(pat)).cloned().collect();
+            want.sort();
+            let got = dbh
+                .search_column_names(tname, pat)
+                .map_err(|f| Failure::from_fault(&f, &format!("{}: search_column_names({:?}, {:?})", stage, tname, pat)))?;
+            match got {
+                Ok(mut g) => {
+                    g.sort();
+                    if g != want {
+                        return Err(Failure::mismatch(format!("{}: search_column_names({:?}, {:?}) = {:?}, expected each of {:?} exactly once", stage, tname, pat, g, want)).tag("search_column_names"));
+                    }
+                }
+                // an empty catalogue table answers with a non-string (empty) column, which the accessor reports as an error
+                Err(_) if want.is_empty() => {}
+                Err(e) => return Err(Failure::mismatch(format!("{}: search_column_names({:?}, {:?}) failed: {}", stage, tname, pat, e)).tag("search_column_names")),
+            }
+            env.class("lane:search_column_names");
+        }
+    }
+    Ok(())
 }
 
 pub fn shard(ctx: &mut Ctx) {
